@@ -511,7 +511,7 @@ LEVEL["C20"] = ("Decides the protocol-shape clauses of C20 only (feature `async`
 
 
 def check_C20(ctx):
-    for cfg, F in ctx.configs(["K4", "K5"]):
+    for cfg, F in ctx.configs(["K4", "K5"] + (["K6", "K8"] if ctx.tier == "thorough" else [])):
         asyn.rule_as_order(ctx, cfg, F)
         ctx.rule("AS-ORDER").floor("to_stream[%s]" % cfg, 1, cfg)
         asyn.rule_as_loop(ctx, cfg, F)
@@ -533,7 +533,7 @@ LEVEL["C19"] = ("Decides the build- and surface-level clauses of C19 only: every
 
 
 def check_C19(ctx):
-    parity.rule_build_all(ctx, ["K1", "K2", "K3", "K4", "K5"])
+    parity.rule_build_all(ctx, ["K1", "K2", "K3", "K4", "K5"] + (["K6", "K7", "K8"] if ctx.tier == "thorough" else []))
     try:
         Fa, Fb = ctx.F("K1"), ctx.F("K3")
         parity.rule_surface_parity(ctx, Fa, Fb)
